@@ -169,7 +169,7 @@ def h_indexed_on_register(env, N, k, q):
 
 
 def h_gate_reuse(env, N, name, qubits, order):
-    """one gate object used repeatedly in the given order of calls ('f' forward, 'b' backward, 'c' compile): every call
+    """one gate object used repeatedly in the given order of calls ('f' forward, 'b' backward, 'c' compile, 'k' replace the gate by its copy): every call
     acts as the textbook gate or its inverse (lazy inversion, compilation and caching must not change the gate)"""
     M = Mods(env)
     qs = [np.int64(q) for q in qubits] if order.startswith('n') else list(qubits)
@@ -194,6 +194,13 @@ def h_gate_reuse(env, N, name, qubits, order):
         if step == 'c':
             r = env.run(lambda: gate.compile())
             env.goal('step%d_compile' % k, b_not(r.raised))
+            continue
+        if step == 'k':
+            # continue with a copy of the (used) gate: the copy is the same textbook gate
+            r = env.run(lambda: gate.copy())
+            env.goal('step%d_copy' % k, b_and(b_not(r.raised), r.value is not None and r.value is not gate))
+            if r.value is not None:
+                gate = r.value
             continue
         if step == 'f':
             r = env.run(lambda: gate.forward(obj))
@@ -273,9 +280,9 @@ def jobs(tier):
             J.append(dict(harness=('c11', 'h_cnot'), params=dict(N=N, pairs=[[c, t], [t, c]])))
             J.append(dict(harness=('c11', 'h_cnot'), params=dict(N=N, pairs=[[t, c], [c, t], [t, c]])))
     for N in (2, 3):
-        for name, qsets in (('H', [[0]]), ('S', [[N - 1]]), ('Y', [[0]]), ('CNOT', [[0, 1], [1, 0], [N - 1, 0]])):
+        for name, qsets in (('H', [[0]]), ('S', [[N - 1]]), ('Y', [[0]]), ('CNOT', [[0, 1], [1, 0], [N - 1, 0]])):   # S is not an involution
             for qubits in qsets:
-                for order in ('bf', 'fbf', 'cfb', 'fcf', 'cbcf', 'nfb', 'ncf'):
+                for order in ('bf', 'fbf', 'cfb', 'fcf', 'cbcf', 'nfb', 'ncf', 'bkf', 'ckfb', 'fkbf', 'kfb'):
                     J.append(dict(harness=('c11', 'h_gate_reuse'), params=dict(N=N, name=name, qubits=qubits, order=order)))
     for N in (2, 3):
         for name, qubits in (('H', [0]), ('S', [N - 1]), ('Y', [1]), ('CNOT', [0, 1]), ('CNOT', [N - 1, 0])):
